@@ -108,6 +108,19 @@ func (e *Enc) encCall(v ssa.Value, c *ssa.CallCommon, st *State, guard string, d
 		// unknown callee: havoc heap (unless result-only builtin-like), unconstrained result
 		e.havocHeapGuarded(st, guard, "call to "+ci.key+" (no contract)")
 		e.growAlloc(st)
+		if ci.dynamic || (ci.fn != nil && inRepo(ci.fn) && e.w.mayHaveGhostEffects(ci.fn, map[*ssa.Function]bool{})) {
+			// repository code without a contract may perform any ghost-observable effect
+			e.note("havoc-all-ghost: call to " + ci.key + " (repository code without contract)")
+			for _, k := range e.keyOrder {
+				if strings.HasPrefix(k, "G:") {
+					old := e.get(st, k, e.keySort[k])
+					n := e.havocKey(st, k)
+					if guard != "true" {
+						e.assume(fmt.Sprintf("(=> (not %s) (= %s %s))", guard, n, old))
+					}
+				}
+			}
+		}
 		if v != nil {
 			e.callResultHavoc(v, st)
 		}
@@ -146,6 +159,7 @@ func (e *Enc) havocHeapGuarded(st *State, guard, why string) {
 			old := e.get(st, k, e.keySort[k])
 			n := e.fresh(k)
 			e.declare(n, e.keySort[k])
+			e.keyInvariant(k, n)
 			if guard != "true" {
 				e.assume(fmt.Sprintf("(=> (not %s) (= %s %s))", guard, n, old))
 			}
@@ -170,7 +184,10 @@ func (e *Enc) bindCallee(ci *calleeInfo, ctx *evalCtx) {
 		if l, ok := e.lv[ci.args[0]]; ok && !l.elems && len(l.path) >= 1 && !l.path[0].isIdx {
 			if _, isS := l.root.Underlying().(*types.Struct); isS {
 				ctx.bind["owner"] = TV{T: l.base, Typ: types.NewPointer(l.root), Sort: "Ref"}
+				ctx.bind["self"] = TV{T: l.base, Typ: types.NewPointer(l.root), Sort: "Ref"}
 			}
+		} else if e.st.sortOf(ci.args[0].Type()) == "Ref" {
+			ctx.bind["self"] = TV{T: e.term(ci.args[0]), Typ: ci.args[0].Type(), Sort: "Ref"}
 		}
 	}
 	if ci.fn != nil && (len(ci.fn.Params) > 0 || len(ci.fn.FreeVars) > 0 || len(ci.fn.Blocks) > 0) {
@@ -672,7 +689,7 @@ func (e *Enc) frameObligation(st *State, guard string, pos token.Pos) {
 		if c != nil && c.whole {
 			continue
 		}
-		if strings.HasPrefix(k, "G:") {
+		if strings.HasPrefix(k, "G:") && !strings.HasPrefix(e.keySort[k], "(Array Ref ") {
 			goals = append(goals, fmt.Sprintf("(= %s %s)", fin, ini))
 			continue
 		}
